@@ -94,10 +94,18 @@ pub proof fn lemma_neg_shape(o: VarOrder)
 {
 }
 
-/// shape part of the `ite` contract: the result respects the order, its top variable is not before all of
-/// the arguments' top variables, and canonical arguments give a canonical result
+pub proof fn lemma_neg_canon()
+    ensures forall|p: BddPtr| #![trigger p.neg_s()] canon(p.neg_s()) == canon(p),
+{
+}
+
+/// shape part of the `ite` contract: the result respects the order and its top variable is not before all
+/// of the arguments' top variables
 pub open spec fn res_shape(f: BddPtr, g: BddPtr, h: BddPtr, r: BddPtr, o: VarOrder) -> bool {
     &&& ordered(r, o)
     &&& top(r, o) >= min3(top(f, o), top(g, o), top(h, o))
-    &&& (canon(f) && canon(g) && canon(h) ==> canon(r))
+}
+/// canonical arguments give a canonical result (C02)
+pub open spec fn res_canon(f: BddPtr, g: BddPtr, h: BddPtr, r: BddPtr) -> bool {
+    canon(f) && canon(g) && canon(h) ==> canon(r)
 }
